@@ -24,6 +24,7 @@ fips_u8 g_digest[32]; // expected digest (finalize)
 fips_u8 g_pad[128];   // FIPS 180-4 5.1.1 padded final block(s) (finalize)
 int g_blocks;         // 1 or 2 of them
 unsigned g_r;         // bytes buffered before finalize = count mod 64
+unsigned long long g_lenbits; // message length in bits modulo 2^64
 
 static void slot_fill(int s, const fips_u32 H[8], const fips_u32 M[16])
 {
@@ -245,7 +246,7 @@ void h_finalize()
   // spec: FIPS 180-4 5.1.1 padding of the buffered tail, then one or two compressions
   fips_u8* pad = g_pad;
   int blocks = fips_pad(blk, cnt, pad);
-  g_blocks = blocks; g_r = (unsigned)(cnt & 63);
+  g_blocks = blocks; g_r = (unsigned)(cnt & 63); g_lenbits = cnt << 3;
   fips_u32 H1[8];
   slot_fill_bytes(0, st, pad);
   for(int k = 0; k < 8; k++) H1[k] = st[k] + g_S[0][64 * 8 + k];
